@@ -7,9 +7,11 @@ DtsS  == {1, 2, 3, 4}
 DtsP  == {2, 4}
 TargQ == {0, 3, 4, 7}
 TargB == {0, 3, 4, 7, 8}
-TargT == {0, 1, 3, 4, 7, 8, 11}
+TargT == {0, 1, 3, 4, 7, 8}
 TargU == {0, 3, 4}
 TargV == {3, 7}
+TargW == {0, 3}
+TargX == {3}
 TargS == {0, 1, 2, 3, 4, 5, 6, 7, 8, 10, 12}
 LsAll == {2, 3, 4, 5, 6}
 \* constant-level statements about chains, checked once by TLC
